@@ -44,3 +44,22 @@ pub mod trusted_axioms {
     {}
 }
 '''
+
+def sat_add(t):
+    return f'''
+pub assume_specification [{t}::saturating_add] (a: {t}, b: {t}) -> (r: {t})
+    ensures r as int == (if a + b > {t}::MAX {{ {t}::MAX as int }} else if a + b < {t}::MIN {{ {t}::MIN as int }} else {{ a + b }});
+'''
+
+_RANGES = {'u8': (0, 2**8 - 1), 'u16': (0, 2**16 - 1), 'u32': (0, 2**32 - 1), 'u64': (0, 2**64 - 1), 'usize': (0, 2**64 - 1),
+           'i8': (-2**7, 2**7 - 1), 'i16': (-2**15, 2**15 - 1), 'i32': (-2**31, 2**31 - 1), 'i64': (-2**63, 2**63 - 1),
+           'isize': (-2**63, 2**63 - 1), 'i128': (-2**127, 2**127 - 1), 'u128': (0, 2**128 - 1)}
+
+
+def try_from(dst, src):
+    """<dst as TryFrom<src>>::try_from succeeds iff the value fits in dst (std semantics)."""
+    return f'''
+pub assume_specification [<{dst} as TryFrom<{src}>>::try_from] (x: {src}) -> (r: Result<{dst}, <{dst} as TryFrom<{src}>>::Error>)
+    ensures ({dst}::MIN <= x <= {dst}::MAX) ==> (r is Ok && r->Ok_0 as int == x as int),
+            !({dst}::MIN <= x <= {dst}::MAX) ==> r is Err;
+'''
